@@ -154,7 +154,25 @@ func Render(s *Spec, o RenderOpts) string {
 		b.WriteString("%{\n// typescript prologue\n%}\n")
 	}
 	// ---- union
-	if len(s.Fields) > 0 {
+	if len(s.Fields) > 0 && l.chance(1, 4) {
+		// the whole union on one line
+		b.WriteString("%union { ")
+		for i, f := range s.Fields {
+			if i > 0 {
+				b.WriteString("; ")
+			}
+			if v.Lang == "go" {
+				b.WriteString(f.Name + " " + f.Type)
+			} else {
+				t := "number"
+				if f.Type == "string" {
+					t = "string"
+				}
+				b.WriteString(f.Name + " :" + t)
+			}
+		}
+		b.WriteString(" }\n")
+	} else if len(s.Fields) > 0 {
 		b.WriteString("%union {\n")
 		for _, f := range s.Fields {
 			if v.Lang == "go" {
@@ -364,8 +382,17 @@ func goEpilogue(s *Spec, o RenderOpts) string {
 		}
 		return b.String()
 	}
-	b.WriteString("var HookNext func() (int, int)\nvar HookRec func(int)\n\nfunc Rec(r int) { HookRec(r) }\n\n")
-	b.WriteString("func GetToken(input string, val *ValType, pos *int) int {\n\tidx, v := HookNext()\n\t_ = v\n\t*val = ValType{}\n\tswitch idx {\n\tcase -1:\n\t\treturn -1\n\tcase -2:\n\t\treturn v\n")
+	b.WriteString("var HookNext func(int) (int, int)\nvar HookRec func(int)\n\nfunc Rec(r int) { HookRec(r) }\n\n")
+	// the value the parser hands to the lexer is reported to the environment before it is overwritten:
+	// at the first token of a parse it must not carry anything over from an earlier parse
+	incoming := "0"
+	for _, f := range s.Fields {
+		if f.Type == "int" {
+			incoming = "val." + f.Name
+			break
+		}
+	}
+	b.WriteString("func GetToken(input string, val *ValType, pos *int) int {\n\tidx, v := HookNext(" + incoming + ")\n\t_ = v\n\t*val = ValType{}\n\tswitch idx {\n\tcase -1:\n\t\treturn -1\n\tcase -2:\n\t\treturn v\n")
 	b.WriteString(goTokenCases(s))
 	b.WriteString("\t}\n\treturn -1\n}\n\n")
 	st := startTag(s)
@@ -399,7 +426,14 @@ func tsEpilogue(s *Spec, o RenderOpts) string {
 		return b.String()
 	}
 	b.WriteString("function Rec(r :number) { HookRec(r) }\n")
-	b.WriteString("function GetToken(input :string, model:{ValType :ValType, pos :number}) :number {\n\tlet nx = HookNext()\n\tlet idx = nx[0]\n\tlet v = nx[1]\n\tmodel.ValType = new ValType()\n\tswitch (idx) {\n\tcase -1:\n\t\treturn -1\n\tcase -2:\n\t\treturn v\n")
+	tsIncoming := "0"
+	for _, f := range s.Fields {
+		if f.Type == "int" {
+			tsIncoming = "(model.ValType ? (model.ValType." + f.Name + " || 0) : 0)"
+			break
+		}
+	}
+	b.WriteString("function GetToken(input :string, model:{ValType :ValType, pos :number}) :number {\n\tlet nx = HookNext(" + tsIncoming + ")\n\tlet idx = nx[0]\n\tlet v = nx[1]\n\tmodel.ValType = new ValType()\n\tswitch (idx) {\n\tcase -1:\n\t\treturn -1\n\tcase -2:\n\t\treturn v\n")
 	for ti, t := range s.Terms {
 		fmt.Fprintf(&b, "\tcase %d:\n", ti)
 		for fi, f := range s.Fields {
